@@ -689,8 +689,8 @@ func (c *wsConn) outputWorker() {
 		for len(c.queue) > idx {
 			f = c.queue[idx]
 			c.mu.Unlock()
-			verifPoint("conn.run")
 			verifBusy(1)
+			verifPoint("conn.run")
 			f()
 			verifBusy(-1)
 			idx++
